@@ -97,17 +97,32 @@ func (b c20Behaviour) String() string {
 	return s
 }
 
-func c20Behaviours() []c20Behaviour {
+func c20Behaviours(thorough bool) []c20Behaviour {
 	var out []c20Behaviour
 	budgets := []int{-1}
 	for k := 0; k <= 40; k++ {
 		budgets = append(budgets, k)
 	}
+	chunks := []int{0, 1, 7}
+	shorts := [][2]int{{-1, 0}, {0, 0}, {0, 1}, {0, 31}, {1, 0}, {1, 16}, {2, 5}, {3, 1}}
+	if thorough {
+		// every chunk size up to one more than the seed, every short read of every length at calls 0..3
+		chunks = []int{0}
+		for c := 1; c <= 33; c++ {
+			chunks = append(chunks, c)
+		}
+		shorts = [][2]int{{-1, 0}}
+		for call := 0; call <= 3; call++ {
+			for l := 0; l <= 31; l++ {
+				shorts = append(shorts, [2]int{call, l})
+			}
+		}
+	}
 	for _, bud := range budgets {
 		for ek := 0; ek < 3; ek++ {
 			for _, tog := range []bool{true, false} {
-				for _, chunk := range []int{0, 1, 7} {
-					for _, sa := range [][2]int{{-1, 0}, {0, 0}, {0, 1}, {0, 31}, {1, 0}, {1, 16}, {2, 5}, {3, 1}} {
+				for _, chunk := range chunks {
+					for _, sa := range shorts {
 						if bud == -1 && (ek > 0 || !tog) {
 							continue
 						}
@@ -136,10 +151,10 @@ func init() {
 		ID:        "C20",
 		Level:     "fault_enumeration",
 		Technique: "exhaustive enumeration of the supplied io.Reader's answers (failure after every byte count 0..40 x 3 error values x 2 error-delivery styles x 3 chunkings x 8 short-read scripts) for every operation that takes a random source, on the real code",
-		Rule:      "for Builder.Build(WithRNG), biscuit.New, Append and Seal: the reader fails after k delivered bytes for every k in 0..40 (k < 32 is a failure while key material is drawn; k >= 32 is not), with a custom error / io.EOF / io.ErrUnexpectedEOF, returned with the last bytes or by the next call, delivering all / 1 / 7 bytes per call, optionally with one short read (0, 1, 5, 16 or 31 bytes at call 0..3): 5928 behaviours per operation. Oracle: failure before 32 delivered bytes => error, no token, no panic (Seal needs no randomness and must succeed); a returned token announces the key derived from exactly the first 32 delivered bytes, carries that seed as proof, verifies under the root and authorizes a trivial policy. Non-trivial = the reader deviates from 'deliver everything'; distinct by construction.",
+		Rule:      "for Builder.Build(WithRNG), biscuit.New, Append and Seal: the reader fails after k delivered bytes for every k in 0..40 (k < 32 is a failure while key material is drawn; k >= 32 is not), with a custom error / io.EOF / io.ErrUnexpectedEOF, returned with the last bytes or by the next call, delivering all / 1 / 7 bytes per call, optionally with one short read (0, 1, 5, 16 or 31 bytes at call 0..3): 5928 behaviours per operation (thorough: every chunk size 1..33 and every short read of 0..31 bytes at calls 0..3: 1.1 million behaviours per operation). Oracle: failure before 32 delivered bytes => error, no token, no panic (Seal needs no randomness and must succeed); a returned token announces the key derived from exactly the first 32 delivered bytes, carries that seed as proof, verifies under the root and authorizes a trivial policy. Non-trivial = the reader deviates from 'deliver everything'; distinct by construction.",
 		Assume:    []string{"crypto/ed25519.GenerateKey reads exactly 32 bytes from the supplied reader with io.ReadFull (Go 1.23 behaviour, checked by the 'never fails' behaviours)"},
 		Spaces: func(c *sup.Ctx) []*sup.Space {
-			behs := c20Behaviours()
+			behs := c20Behaviours(c.Thorough())
 			nb := int64(len(behs))
 			return []*sup.Space{{Name: "reader-faults", Size: func(*sup.Ctx) int64 { return nb * c20NOps }, Run: func(i int64, w *sup.W) {
 				op := int(i / nb)
